@@ -78,13 +78,14 @@ NumVal(c, cap) ==
   CASE c = "minInt" -> -Huger  [] c = "neg1" -> -1  [] c = "zero" -> 0  [] c = "one" -> 1
     [] c = "capM1" -> cap - 1  [] c = "cap" -> cap  [] c = "capP1" -> cap + 1
     [] c = "i32max" -> Huge    [] c = "two62" -> Huger
+    [] c = "ok" -> cap
     [] OTHER -> 0
 
 SizeVal(n) ==
   CASE n = "zero" -> 0 [] n = "one" -> 1 [] n = "small" -> SmallU
     [] n = "capM1" -> CapU - 1 [] n = "cap" -> CapU [] n = "capP1" -> CapU + 1
     [] n = "big" -> BigU [] n = "max" -> FrameMaxU [] n = "maxP1" -> FrameMaxU + 1
-    [] n = "some" -> SupU [] n = "none" -> 0
+    [] n = "some" -> SupU [] n = "none" -> 0 [] n = "half" -> CapU \div 2 + 1
     [] OTHER -> 0
 
 -----------------------------------------------------------------------------
@@ -193,8 +194,8 @@ ExprUnits(cap, mode, full) ==
   LET big == IF mode = "plain" THEN It("str", "ok", "big", "F", "-") ELSE It("str", "ok", "big", "T", "over")
       pfx == IF mode = "plain" THEN "-" ELSE "match"
       sec(n, t) == <<It("str", "marker", "small", "T", pfx), It("str", "ok", n, t, pfx)>>
-      core == {<<It("str", "ok", "small", "T", pfx)>>, sec("big", IF mode = "plain" THEN "F" ELSE "T"), <<big>>}
-      more == {<<It("str", "noeq", "small", "T", pfx)>>, <<It("str", "empty", "zero", "T", pfx)>>,
+      core == {<<It("str", "ok", "half", "T", pfx)>>, sec("big", IF mode = "plain" THEN "F" ELSE "T"), <<big>>}
+      more == {<<It("str", "ok", "small", "T", pfx)>>, <<It("str", "noeq", "small", "T", pfx)>>, <<It("str", "empty", "zero", "T", pfx)>>,
                <<It("str", "ok", "big", "T", pfx)>>, sec("small", "T"),
                <<It("str", "marker", "small", "T", pfx)>>}
                \cup IF mode = "enc" THEN {<<It("str", "ok", "small", "T", "neg1")>>,
@@ -204,7 +205,7 @@ ExprUnits(cap, mode, full) ==
 TypeSeqs(mode) ==
   LET pfx == IF mode = "plain" THEN "-" ELSE "match"
       ty(c) == It("str", c, "small", "T", pfx) IN
-  {<<>>, <<ty("type")>>, <<ty("type"), ty("type")>>, <<ty("badtype"), ty("type")>>}
+  {<<>>, <<ty("type"), ty("type")>>, <<ty("badtype"), ty("type")>>}
 
 AdBodies(cap, mode) ==
   LET u1 == ExprUnits(cap, mode, TRUE)
@@ -220,10 +221,21 @@ ItemsForOp(op, mode) ==
     [] op.o = "bytes" -> BytesItems
     [] OTHER          -> {}
 
-RECURSIVE Lined(_, _, _)
-Lined(prog, mode, k) ==   \* all item sequences for the first k operations
+\* a benign item for an operation: c = "ok" lets the replayer fill in the value
+\* that keeps the message well-formed (a matching length, the "go on" status)
+Ben(op, mode) ==
+  CASE op.o = "int" -> It("int", "ok", "-", "-", "-")
+    [] op.o = "str" -> It("str", "x", "small", "T", IF mode = "plain" THEN "-" ELSE "match")
+    [] OTHER        -> It("bytes", "x", "exact", "-", "-")
+
+\* item sequences for the first k operations: the last two positions range over
+\* the hostile classes, everything before them is benign (the decoder stops at
+\* the first item it refuses, so hostile-then-anything adds nothing)
+Lined(prog, mode, k) ==
   IF k = 0 THEN {<<>>}
-  ELSE {s \o <<i>> : s \in Lined(prog, mode, k - 1), i \in ItemsForOp(prog[k], mode)}
+  ELSE IF k = 1 THEN {<<i>> : i \in ItemsForOp(prog[1], mode)}
+  ELSE LET pre == [j \in 1..(k - 2) |-> Ben(prog[j], mode)] IN
+       {pre \o <<a, b>> : a \in ItemsForOp(prog[k - 1], mode), b \in ItemsForOp(prog[k], mode)}
 
 ProgInputs(ep, mode) ==
   LET prog == Prog(ep)
@@ -299,7 +311,7 @@ ProgOK(s) == (s.cut => Len(s.items) > 0 /\ s.fin = "eom")
 
 BlobScns == {Scn("blob", "NewStreamWithCryptoState", "plain", inp, fin, FALSE) :
                inp \in BlobInputs, fin \in {"exact", "extra"}}
-TextScns == {Scn("text", ep, "plain", inp, "-", FALSE) : ep \in TextEPs, inp \in TextInputs(ep)}
+TextScns == UNION {{Scn("text", ep, "plain", inp, "-", FALSE) : inp \in TextInputs(ep)} : ep \in TextEPs}
 WatchScns == {Scn("watch", ep, "plain", inp, "-", FALSE) : ep \in WatchEPs, inp \in WatchInputs}
 
 Scenarios ==
@@ -513,7 +525,8 @@ ProgStep ==
                        /\ left' = (IF op.role = "count" THEN NumVal(Item.c, 2) ELSE left)
                        /\ IF op.role = "cmd" /\ Item.c = "other"
                           THEN End("error", FALSE) /\ Keep(<<pc, ii>>)
-                          ELSE IF op.role = "flag" /\ Item.c # (IF scn.ep \in {"SrvTokenStep1", "CliTokenStep2"} THEN "zero" ELSE "one")
+                          ELSE IF op.role = "flag" /\ Item.c # "ok"
+                               /\ Item.c # (IF scn.ep \in {"SrvTokenStep1", "CliTokenStep2"} THEN "zero" ELSE "one")
                                /\ scn.ep # "CliExchangeKey"
                           THEN \* status says "failed": the reader gives up (after reading what it likes)
                                End("error", FALSE) /\ Keep(<<pc, ii>>)
